@@ -23,8 +23,9 @@ import (
 
 	_ "github.com/tencent/goom/verifsim/worlds/concw"
 	_ "github.com/tencent/goom/verifsim/worlds/hist"
-	_ "github.com/tencent/goom/verifsim/worlds/spacew"
 	_ "github.com/tencent/goom/verifsim/worlds/ifacew"
+	_ "github.com/tencent/goom/verifsim/worlds/memw"
+	_ "github.com/tencent/goom/verifsim/worlds/spacew"
 	_ "github.com/tencent/goom/verifsim/worlds/stubw"
 	_ "github.com/tencent/goom/verifsim/worlds/varw"
 )
@@ -104,7 +105,7 @@ func main() {
 	}
 	out = bufio.NewWriter(outFile)
 
-	img, err := simenv.Snapshot()
+	img, err := simenv.Shared()
 	if err != nil {
 		fmt.Fprintln(os.Stderr, "simnode: snapshot:", err)
 		os.Exit(2)
